@@ -400,6 +400,7 @@ func (in *Interp) runPath(fn *ssa.Function, prefix []decision, baseCfg *HarnessC
 	in.mergeDepth = 0
 	in.noMerge = false
 	in.pathViolations = 0
+	in.sch, in.mus, in.wgs = nil, nil, nil
 	in.mergeSet = append(in.mergeSet[:0], defaultMergeSet...)
 	in.journal = in.journal[:0]
 	in.journalOn = true
@@ -436,6 +437,7 @@ func (in *Interp) runPath(fn *ssa.Function, prefix []decision, baseCfg *HarnessC
 		}()
 		in.callFunction(fn, nil, nil)
 	}()
+	in.killCoros()
 	if end == "done" && len(res.Witnesses) < 12 && !in.hasUnknown {
 		sig := strings.Join(in.pathCovers, ",")
 		if !res.witSigs[sig] {
